@@ -39,6 +39,10 @@ def programs(tier):
     for pr in ('rng:E|E', 'rng:E,E|E', 'rng:E|C,X', 'rng:E,C,X|E', 'rng:C,X,E|E,C,X'):
         progs.append((pr, 2 if tier == 'quick' else 3, 200))
     progs.append(('rng:E|E|C,X', 1 if tier == 'quick' else 2, 300))
+    # requests of different lengths on the shared generator: a request that is not a multiple of the 32-octet block leaves a reserve, the
+    # next requests are shorter than / equal to / longer than that reserve (oracle: no 8 octets of output handed out twice)
+    for pr in ('rng:C,R24,R40,R8,X', 'rng:C,R24,R8,X|C,R40,X', 'rng:C,R7,R57,X|C,R16,X', 'rng:C,S24,X|C,R40,R8,X', 'rng:C,R24,X|C,R56,X|C,R8,X'):
+        progs.append((pr, (2 if pr.count('|') < 2 else 1) if tier == 'quick' else 2, 300))
     if tier == 'quick':      # two overlapping re-keyings whose effect is observed by a later request
         progs += [('rng:C,K,R32,X|C,K,X', 2, 300), ('rng:C,K,R32,X|C,K,S32,X', 2, 300)]
     if tier == 'thorough':
